@@ -78,6 +78,14 @@ def run(ctx):
                 equation_fact(facts, r, sv, dg, pt, G),
                 "the success return of verify is not dominated by the verification equation with u1 = digest/s, u2 = r/s",
                 example="any (r, s) in range with an unrelated message")
+        # an off-curve key must not verify: an on-curve test of the key, or of the sum computed from it, dominates success
+        onc = [f for f in facts if isinstance(f, T) and f.op == "app" and f.args[0] == "bits.ecmath.point_is_on_curve"]
+
+        def from_key(f):
+            return any(isinstance(t, T) and t.op == "param" and t.args[0] == "point" for a in f.args[1] for t in tm.subterms(a))
+        R.check("C02.2", "DOM", fv, "success dominated by an on-curve test of the key or of the sum derived from it", any(from_key(f) for f in onc),
+                "ecmath.verify can report success without any on-curve test involving the public key (%d on-curve facts)" % len(onc),
+                example="an off-curve point passed to ecmath.verify with a signature forged for it (u1 = 0, u2 = 1)")
     # no exit that reports success by value under a failing branch: returns other than True/False/None are suspicious
     odd = [e for e in s.returns() if isinstance(e.value, T)]
     R.check("C02.1", "DOM", fv, "verify returns a constant verdict", not odd, "verify returns a computed value: %s" % [tm.show(e.value)[:80] for e in odd])
